@@ -183,8 +183,9 @@ fn dec_restriction(n: &Node) -> bool {
     let cond_ok = match &n.e {
         Expr::Call(Func::Ln, a) => (val(&a[0]).ln()).abs() >= 0.05,
         Expr::Call(Func::Exp, a) => val(&a[0]).abs() <= 30.0,
-        Expr::Call(Func::Pow, a) => (val(&a[1]) * val(&a[0]).ln()).abs() <= 30.0,
-        Expr::Bin(BinOp::Pow, b, e) => (val(e) * val(b).ln()).abs() <= 30.0,
+        // x^y is as sensitive to x as |y| says: a base that is not a double is off by 1e-16 before eval_f64 starts
+        Expr::Call(Func::Pow, a) => (val(&a[1]) * val(&a[0]).ln()).abs() <= 30.0 && val(&a[1]).abs() <= 1e5,
+        Expr::Bin(BinOp::Pow, b, e) => (val(e) * val(b).ln()).abs() <= 30.0 && val(e).abs() <= 1e5,
         _ => true,
     };
     cond_ok && children(n).iter().all(|c| dec_restriction(c))
@@ -355,7 +356,7 @@ pub fn c15(cx: &RunCtx) {
     if cx.wants("decimal") || cx.wants("f64") {
         let kinds = [Kind::Relation];
         let mut pool: Vec<Leaf<Dec>> = Vec::new();
-        for t in ["0.5", "2", "3", "1.5", "7", "10", "0.25", "1.10", "100", "0.1", "12.5"] {
+        for t in ["0.5", "2", "3", "1.5", "7", "10", "0.25", "1.10", "100", "0.1", "12.5", "1000000", "0.000001", "123456789", "0.000000001", "1000000000000", "0.999999", "1.000001", "65.5", "27"] {
             pool.push(Leaf::of(lit(t)));
         }
         let mut bins: Vec<BinKind> = [BinOp::Add, BinOp::Mul, BinOp::Div, BinOp::Pow].iter().map(|b| BinKind::Op(*b)).collect();
